@@ -18,12 +18,12 @@ table = ["| change | round | what it does | own check reports it | checks that r
 n_all = len(rows)
 n_own = sum("| yes |" in r for r in rows)
 n_any = sum(not r.rstrip().endswith("| - |") for r in rows)
-n_r1 = sum("| 1 |" in r for r in rows)
-text = (f"{n_all} changes made by sub-agents that saw only the property text (round 1: {n_r1}, before or while the checks were written; round 2: {n_all - n_r1}, after the checks "
-        f"had been strengthened against round 1). Each was confirmed in a scratch worktree (demonstration passes on HEAD, fails with the patch; the unedited "
-        f"suite passes with the patch). Matrix from `tools/sweep_seeded.sh` (every change applied in turn to /repo, ALL twenty quick checks run, change undone): "
-        f"{n_own} of {n_all} are reported by the check of their own property, {n_any} of {n_all} by at least one check. The per-change description of HOW it is "
-        f"detected (broken theorem / translator / correspondence, and the concrete input found) is in `seeded/<id>/<n>/meta.json`.\n\n" + "\n".join(table))
+by_round = {r: sum(f"| {r} |" in x for x in rows) for r in (1, 2, 3)}
+text = (f"Final state, {n_all} changes (round 1: {by_round[1]}, round 2: {by_round[2]}, round 3: {by_round[3]}). Each was confirmed in a scratch worktree (demonstration "
+        f"passes on HEAD, fails with the patch; the unedited suite passes with the patch). Matrix from `tools/sweep_seeded.py` on the final checks (every change applied in "
+        f"turn to /repo, the quick check of its own property run, and ALL other quick checks if that one is silent; change undone): {n_own} of {n_all} are reported by the "
+        f"check of their own property, {n_any} of {n_all} by at least one check. For a change reported by its own check the last column lists only that check. The "
+        f"per-change description of HOW it is detected (broken theorem / translator / correspondence, and the concrete input found) is in `seeded/<id>/<n>/meta.json`.\n\n" + "\n".join(table))
 p = "/verif/DESIGN.md"
 s = open(p).read()
 if "<!-- SEEDED-TABLE-BEGIN -->" in s:
